@@ -178,7 +178,7 @@ class C11(Check):
     per_case_timeout = 10
     technique = ('machine-checked proof (Coq 8.16) about an executable model of the pthread primitives and of libnstd\'s wrappers '
                  '+ deterministic-scheduler correspondence (real library code on virtual primitives, same move list as the model)')
-    level_text = ('Theorems in Coq (32, closed under the global context; 22 about the coarse machine, 10 about its granularity) about every state reachable by ANY list of scheduler moves '
+    level_text = ('Theorems in Coq (35, closed under the global context; 25 about the coarse machine, 10 about its granularity) about every state reachable by ANY list of scheduler moves '
                   '(run a thread\'s pending primitive call, spurious wake-up, timeout, timeout-steal = a woken timed waiter past its '
                   'deadline reports ETIMEDOUT although the signal was directed at it (POSIX-permitted), clock advance, rotation of a '
                   'condition queue) from any scripts of library calls, any number of threads, any results of the thread functions, any initial signal state and semaphore '
@@ -225,7 +225,21 @@ class C11(Check):
                   'Monitor waits are counted against set() CALLS that passed their critical section, not against flag transitions; "no Semaphore '
                   'waiter stays blocked while the count is positive" is judged with the count initial value + signals - successful waits computed '
                   'from the history, not with the value the implementation reports; thread results and initial semaphore counts beyond 2^8, 2^16 '
-                  'and 2^31 are generated.')
+                  'and 2^31 are generated. '
+                  'ROUND 6: (a) a Thread::start whose pthread_create FAILS (EAGAIN) is an input of the scenario: script op ThStartF c (`startf=<c>`), so every '
+                  'theorem - stated for any scripts - covers runs with failing starts. New theorems: failed_start_changes_nothing (for ANY world, the move that '
+                  'executes such a start changes no primitive, flag, handle, mark or other thread - only the caller\'s script position and the history entry '
+                  'start = false), start_after_failed_start_succeeds (the retry on the same object: four moves later the handle is stored, the child runs, the '
+                  'history shows start = false then start = true), handle_only_for_created_thread (in every reachable state a Thread object with a non-null '
+                  'handle has a child for which pthread_create succeeded - join never waits for a thread function that never ran). In the tie the virtual '
+                  'pthread_create, on every failure, writes into its output parameter the handle of a thread that has already exited (what glibc leaves '
+                  'there; POSIX: undefined contents) and returns EAGAIN; a later pthread_join of a virtual thread on that handle is not executed but '
+                  'reported (`! stale-join`, a failing input: join returned a value although no thread function of the object had finished). '
+                  '(b) STATIC STORAGE DURATION: a fifth of the random scenarios, 11 templates and one enum scope (case head `@n sig0 sem0 auto 1`) run on '
+                  'a Signal, Monitor, Mutex and Semaphore defined at namespace scope in the harness translation unit, which is the first object on the '
+                  'link line, i.e. constructed before main() and before the static initialisers of the library\'s own translation units; the '
+                  'virtual mutex takes its type (recursive or not) from the real pthread_mutex_t as always, so a Mutex that depends on an initialiser '
+                  'of Mutex.cpp having run first is judged as the non-recursive mutex it is (owner blocked in lock(), owner\'s tryLock false).')
     level_note = ('PARTIAL in this sense: the OS primitives are MODELLED. coq/Sync/Sched.v (pthread mutex plain/recursive - EPERM for a '
                   'non-owner unlock only on the recursive type, a default-type mutex is freed whoever held it, as glibc does -, condition '
                   'variable with spurious wake-ups, timeouts and timeout-steals as scheduler moves, POSIX semaphore with EINTR, '
@@ -290,7 +304,17 @@ class C11(Check):
                   'monitor_waits_le_sets (until round 5 only false->true transitions were counted, which rejected a Monitor that remembers every '
                   'set()); the state oracle asks for a released waiter per blocked-and-marked waiter by "a set() passed while it was blocked and '
                   'no wait has returned true since", not by the value of the flag; validated by correspondence only: handle bookkeeping '
-                  'of Thread::start/join on repeated start/join (modelled, compared, no theorem), the exact value of the deadline.')
+                  'of Thread::start/join on repeated start/join (modelled, compared; since round 6 one theorem: handle_only_for_created_thread), the exact value of the deadline. '
+                  'Round 6: the failing pthread_create is scripted per start() call (an input of the scenario), not a move of the scheduler: '
+                  'failed_start_changes_nothing shows that it touches nothing another thread can observe, so the moment at which it fails is immaterial; '
+                  'the model\'s failing start issues no primitive call (no scheduling point) and the virtual pthread_create fails it without one. Only EAGAIN '
+                  'is injected; a pthread_create that fails AFTER having started the child does not exist in POSIX and is not modelled. The value the virtual '
+                  'pthread_create leaves in *thread on failure is the handle of one exited thread of the process that is joined only at exit (so that the '
+                  'scheduler can recognise it): for the library it is as dangling as glibc\'s. Static initialisation order is outside the Coq model (init '
+                  'gives XM the recursive attribute): that objects constructed before the library\'s own static initialisers behave like any other is checked '
+                  'by the tie only, and only for the order "application TU first" that the link line of this check produces (harness objects before the '
+                  'library archive); the Thread objects of a scenario are always heap objects; the static Semaphore is brought to its initial count by that '
+                  'many signal() calls before the scenario (counts above 4096 use a heap Semaphore).')
     rule = ('case = scenario (2-4 threads, one script of library calls per thread, mostly one primitive family) + schedule (list of '
             'moves run/spur/tmo/steal/clock/rot, then a deterministic drain). Streams: enum = every schedule (depth-first, bounded number '
             'of spurious wake-ups/timeouts/timeout-steals, optionally after a fixed prefix that blocks the waiters) of small 2-3 thread '
@@ -298,7 +322,7 @@ class C11(Check):
             'random walks (moves chosen among enabled threads, spurious wake-ups of blocked waiters, clock to deadline-1 / deadline + '
             'timeout or timeout-steal of a woken timed waiter, queue rotations, no-op moves); random = random scripts x random walks; deadline = abstime probes on carry '
             'boundaries. Integer-width boundaries: initial semaphore counts 255..2^31-1 (templates, enum, 15 % of the random scenarios), thread results '
-            '0..2^32-1 incl. low byte(s) zero and values >= 2^31 (case line `r <t> <v>`). Thread scopes enumerate every order of creator and child around pthread_create. Clock bases put the nanosecond field next to a carry. A scenario case is non-trivial when at least two '
+            '0..2^32-1 incl. low byte(s) zero and values >= 2^31 (case line `r <t> <v>`). Round 6: `startf=<c>` (start with a failing pthread_create) in 5 templates, one enum scope and in front of a third of the random starts; a 5th field `1` of the case head selects the objects with static storage duration. Thread scopes enumerate every order of creator and child around pthread_create. Clock bases put the nanosecond field next to a carry. A scenario case is non-trivial when at least two '
             'threads returned from a library call and some thread was blocked (mutex, condition, semaphore or join) at some move; '
             'a deadline case when the nanosecond field carries or the timeout has a sub-second part; distinct = distinct op text.')
     assumptions = ['initial semaphore value >= 0 (uint in the code); the tie drives values up to SEM_VALUE_MAX = 2^31-1, thread results in [0, 2^32)',
